@@ -52,6 +52,13 @@ pub fn generate_scenario(property: &str, seed: u64, run: u64, thorough: bool) ->
             "C14" => {
                 f.corrupt = pickf(&mut rng, 0.4, 0.02, 0.2);
             }
+            "C06" => {
+                f.reregister = pickf(&mut rng, 0.7, 0.05, 0.3);
+                f.dup = pickf(&mut rng, 0.7, 0.05, 0.4);
+                f.partial_registration = pickf(&mut rng, 0.6, 0.05, 0.4);
+                f.restart = pickf(&mut rng, 0.6, 0.01, 0.08);
+                f.epoch_jump = 0.0;
+            }
             _ => {}
         }
     }
@@ -275,7 +282,7 @@ impl Driver {
                 let sent: Vec<usize> = (0..w.parties.len()).filter(|p| w.registered_sent.contains_key(&(*p, rec))).collect();
                 let party = *rng.pick(&sent);
                 self.next_id += 1;
-                Event::Register { id: self.next_id, party, new_key: rng.chance(0.5) }
+                Event::Register { id: self.next_id, party, new_key: w.sc.property != "C06" && rng.chance(0.5) }
             }
             12 => {
                 let party = rng.index(w.parties.len());
